@@ -106,9 +106,11 @@ class TallySpec(Spec):
                 exp_failed = [n for n, k in zip(names, kinds) if outcomes.outcome(k) == 'failed']
                 exp_trace = ''.join(n + ';' for n, k in zip(names, kinds) if outcomes.traces(k))
                 # ---- all ----
-                for verbose in (0, 1, 3):
-                    for use_main in (False, True):
-                        r = run_native(path, 'all', verbose, use_main=use_main)
+                for verbose, use_main, options in ((0, False, None), (0, True, None), (1, False, None), (1, True, None),
+                                                   (3, False, None), (3, True, None), (1, True, '+ELLIPSIS')):
+                    if True:
+                        # the last run passes an option that restates a default: nothing may change
+                        r = run_native(path, 'all', verbose, use_main=use_main, options=options)
                         n_runs += 1
                         harness.forget_modules(modname)
                         tr = trace()
@@ -197,6 +199,86 @@ class TallySpec(Spec):
                 'nontrivial': len(set(outcomes.outcome(k) for k in kinds)) >= 2}
 
 
+class MultiBlockSpec(Spec):
+    """one function whose docstring holds three google blocks of two different kinds (Example / Doctest / Example):
+    three doctests with consecutive numbers; 'list' names each once and naming one runs exactly that one"""
+    prop = 'C10'
+    name = 'multi-block'
+    title = 'several example blocks of different kinds in one docstring'
+    max_len = 3
+
+    def __init__(self):
+        self.rule = ('all 27 assignments of {pass, failout, allskip} to the three blocks x headers (Example, Doctest, Example) and '
+                     '(Doctest, Example, Doctest); commands all / list / each name; non-trivial = all')
+
+    def histories(self, stats):
+        import itertools
+        for hdr in (('Example', 'Doctest', 'Example'), ('Doctest', 'Example', 'Doctest')):
+            for ks in itertools.product(['pass', 'failout', 'allskip'], repeat=3):
+                yield (hdr, ks)
+
+    def hist_cost(self, hist):
+        return 0
+
+    def run_case(self, hist):
+        hdr, ks = hist
+        atoms = []
+        with harness.scratch_dir('c10m') as d:
+            tracefile = os.path.join(d, 'trace.txt')
+            body = []
+            for j, (h, k) in enumerate(zip(hdr, ks)):
+                tr = ">>> _ = open(%r, 'a').write('b%d;')" % (tracefile, j)
+                lines = [tr if l == 'TR' else l for l in outcomes.BODY[k]]
+                body += ['    %s:' % h] + ['        ' + l for l in lines] + ['']
+            src = 'def zz():\n    """\n%s\n    """\n' % '\n'.join(body)
+            modname = harness.unique_modname('m10m', src)
+            path = os.path.join(d, modname + '.py')
+            with open(path, 'w') as f:
+                f.write(src)
+            cwd = os.getcwd()
+            os.chdir(d)
+
+            def trace():
+                t = open(tracefile).read() if os.path.exists(tracefile) else ''
+                if os.path.exists(tracefile):
+                    os.unlink(tracefile)
+                return t
+            try:
+                outs = [outcomes.outcome(k) for k in ks]
+                r = run_native(path, 'list', 1)
+                harness.forget_modules(modname)
+                listed = re.findall(r'^\s+python -m xdoctest \S+ (\S+)$', r['out'], re.M)
+                if sorted(listed) != ['zz:0', 'zz:1', 'zz:2']:
+                    atoms.append({'sig': 'multi-block:list-names', 'msg': 'listed %r, expected zz:0 zz:1 zz:2' % (listed,)})
+                trace()
+                r = run_native(path, 'all', 1)
+                harness.forget_modules(modname)
+                tr = trace()
+                exp_tr = ''.join('b%d;' % j for j, k in enumerate(ks) if outcomes.traces(k))
+                s_ = r['summary'] or {}
+                tal = (s_.get('n_total'), s_.get('n_passed'), s_.get('n_failed'), s_.get('n_skipped'))
+                exp_tal = (3, outs.count('passed'), outs.count('failed'), outs.count('skipped'))
+                if r['raised'] is not None or tr != exp_tr or tal != exp_tal:
+                    atoms.append({'sig': 'multi-block:all', 'msg': 'executed %r (expected %r), tallies %r (expected %r), raised %r' % (tr, exp_tr, tal, exp_tal, r['raised'])})
+                for j, k in enumerate(ks):
+                    r = run_native(path, 'zz:%d' % j, 1)
+                    harness.forget_modules(modname)
+                    tr = trace()
+                    exp_tr = ('b%d;' % j) if outcomes.traces(k, named=True) else ''
+                    s_ = r['summary'] or {}
+                    o = outcomes.outcome(k, named=True)
+                    tal = (s_.get('n_total'), s_.get('n_passed'), s_.get('n_failed'), s_.get('n_skipped'))
+                    exp_tal = (1, int(o == 'passed'), int(o == 'failed'), int(o == 'skipped'))
+                    if r['raised'] is not None or tr != exp_tr or tal != exp_tal:
+                        atoms.append({'sig': 'multi-block:named', 'msg': 'zz:%d (%s): executed %r (expected %r), tallies %r (expected %r)' % (j, k, tr, exp_tr, tal, exp_tal)})
+            finally:
+                os.chdir(cwd)
+                harness.forget_modules(modname)
+        seen = set()
+        uniq = [a for a in atoms if not (a['sig'] in seen or seen.add(a['sig']))]
+        return {'atoms': uniq, 'n': 5, 'outcome': ','.join(ks), 'case': {'headers': list(hdr), 'kinds': list(ks), 'module': src}, 'nontrivial': 1}
+
+
 class CliSpec(TallySpec):
     """the same tallies through a real `python -m xdoctest` subprocess (binds the in-process runs to the CLI)"""
     title = 'python -m xdoctest <module> all in a subprocess'
@@ -246,5 +328,5 @@ class CliSpec(TallySpec):
 
 def specs(tier):
     if tier == 'thorough':
-        return [TallySpec('modules<=3', 3), TallySpec('modules=4', 4, min_len=4, max_cost=4), CliSpec('cli<=3', 3, max_cost=4)]
-    return [TallySpec('modules<=2', 2), TallySpec('modules=3', 3, min_len=3, max_cost=3), CliSpec('cli<=2', 2)]
+        return [TallySpec('modules<=3', 3), TallySpec('modules=4', 4, min_len=4, max_cost=4), MultiBlockSpec(), CliSpec('cli<=3', 3, max_cost=4)]
+    return [TallySpec('modules<=2', 2), TallySpec('modules=3', 3, min_len=3, max_cost=3), MultiBlockSpec(), CliSpec('cli<=2', 2)]
